@@ -469,6 +469,7 @@ class Verdict:
         ev["coverage"]["known_findings_hit"] = len(self.known)
         if ev["coverage"]["states"] < 1:
             ev["coverage"]["states"] = 0
+        _conform_coverage(ev["coverage"])
         if self.write_evidence:
             # runs against a scratch copy of the repository (mutants) keep their evidence with their build
             edir = os.path.join(VERIF, "evidence") if REPO == "/repo" else os.path.join(BUILD, "evidence")
@@ -477,6 +478,38 @@ class Verdict:
         for what, replay in real:
             log("VIOLATION property=%s replay=%s  # %s" % (self.pid, replay, what))
         return 1 if real else 0
+
+
+_COV_INT = ("evaluations", "distinct_nontrivial", "states", "transitions", "traces_validated_against_impl", "obligations", "discharged", "programs", "disagreements_checked")
+_COV_STR = ("rule", "explanation", "checker_cmd")
+
+
+def _conform_coverage(cov):
+    """EVIDENCE.schema.json types a few coverage keys; a check that put a richer value under such a key keeps it
+    under <key>_detail and the typed key gets the measured count"""
+    for k in _COV_INT:
+        v = cov.get(k)
+        if v is None or (isinstance(v, int) and not isinstance(v, bool) and v >= 0):
+            continue
+        cov[k + "_detail"] = v
+        if isinstance(v, dict):
+            cov[k] = sum(x for x in v.values() if isinstance(x, int) and not isinstance(x, bool))
+        elif isinstance(v, (list, tuple, set)):
+            cov[k] = len(v)
+        elif isinstance(v, float) and v >= 0:
+            cov[k] = int(v)
+        else:
+            del cov[k]
+    for k in _COV_STR:
+        if k in cov and not isinstance(cov[k], str):
+            cov[k] = json.dumps(cov[k])
+    if "samples" in cov and not isinstance(cov["samples"], list):
+        cov["samples"] = [cov["samples"]]
+    if "exhaustive" in cov and not isinstance(cov["exhaustive"], bool):
+        cov["exhaustive"] = bool(cov["exhaustive"])
+    if "trusted_base" in cov:
+        tb = cov["trusted_base"]
+        cov["trusted_base"] = [str(x) for x in (tb if isinstance(tb, (list, tuple)) else [tb])]
 
 
 def load_known(pid):
